@@ -2,6 +2,7 @@ import PyCliffordModel.Model.Poly
 import PyCliffordModel.Model.Torch
 import PyCliffordModel.Model.Device
 import PyCliffordModel.Model.SBRG
+import PyCliffordModel.Model.Index
 /-!
 # Driver — line protocol around the executable model (trusted glue: parsing and printing only)
 
@@ -281,6 +282,14 @@ def pureOp (w : List String) : Option String :=
   | ["repr", a] => do
       let a ← decPauli a
       pure (match reprPauli a with | some cs => "ok " ++ String.ofList (cs.map fun c => if c == ' ' then '.' else c) | none => "err UnboundLocalError")
+  | ["getint", rows, i] => do let rows ← decRows rows; let i ← i.toInt?; pure (ex encPauli (getInt rows i))
+  | ["getslice", rows, a, b, st] => do
+      let rows ← decRows rows; let st ← st.toInt?
+      let a ← if a == "None" then some none else a.toInt?.map some
+      let b ← if b == "None" then some none else b.toInt?.map some
+      pure (ex encRows (getSlice rows a b st))
+  | ["getmask", rows, m] => do let rows ← decRows rows; let m ← decBits m; pure (ex encRows (getMask rows m))
+  | ["getidx", rows, idx] => do let rows ← decRows rows; let idx ← decInts idx; pure (ex encRows (getIdx rows idx))
   | ["T.ipow", a, b] => do let a ← decStr a; let b ← decStr b; pure (toString (T.ipow a b))
   | ["T.acq", a, b] => do let a ← decStr a; let b ← decStr b; pure (toString (T.acq a b))
   | ["T.p0", a] => do let a ← decStr a; pure (toString (T.p0 a))
